@@ -2,7 +2,7 @@
 From Coq Require Import ZArith List Bool Lia.
 Import ListNotations.
 Require Import Verif.gen.Consts_rb Verif.gen.Consts_rbconc Verif.RbModel Verif.RbSpec Verif.RbProofs
-  Verif.RbConcModel Verif.RbConcProofs Verif.RbConcProofsInv.
+  Verif.RbConcModel Verif.RbConcProofs Verif.RbConcProofsInv Verif.RbConcProofsTok Verif.RbConcProofsTok2.
 Local Open Scope Z_scope.
 
 Fixpoint times {A} (n : nat) (x : A) : list A := match n with O => [] | S k => x :: times k x end.
@@ -67,3 +67,28 @@ Lemma ex2_tokens :
   Forall (fun c => is_peek c = false) [RRead 64 true] /\ quiescent ex2_after = true /\ hsem (g_sh ex2_after) = Some 1 /\
   length (g_pub ex2_after) = 2%nat /\ length (g_got ex2_after) = 1%nat.
 Proof. split; [repeat constructor|]. vm_compute. repeat split; reflexivity. Qed.
+
+(* the IPC server pattern: peek, then reclaim.  After the successful peek the reader is between calls holding the
+   peeked chunk: 2 chunks unread, 1 token in the semaphore, 1 token held - the bound of C01_tokens_peek_reclaim is tight *)
+Definition ex3_state : state :=
+  exec (times 60 TW ++ times 11 TR)
+       (init ex_ring [WWrite [1; 2; 3; 4; 5]; WWrite [9; 9]] [RPeek true; RReclaim; RRead 64 true]).
+
+Lemma ex3_ok :
+  wf_ring ex_ring /\ hsem ex_ring = Some 0 /\
+  r_pc (g_r ex3_state) = RCall /\ r_have (g_r ex3_state) = true /\ hsem (g_sh ex3_state) = Some 1 /\
+  length (g_pub ex3_state) = 2%nat /\ length (g_got ex3_state) = 0%nat.
+Proof. split; [exact ex_ring_wf|]. vm_compute. repeat split; reflexivity. Qed.
+
+(* a run in which a peek fails (empty ring), the next ones succeed and are each followed by a reclaim: the run condition
+   of C01_tokens_when_peeks_are_reclaimed holds although the program is not of the static peek-reclaim shape *)
+Definition ex4_init : state :=
+  init ex_ring [WWrite [1; 2; 3; 4; 5]; WWrite [9; 9]]
+       [RPeek false; RPeek true; RReclaim; RPeek true; RReclaim; RPeek false].
+Definition ex4_sched : list tid := times 3 TR ++ times 60 TW ++ times 22 TR.
+
+Lemma ex4_ok :
+  every_prefix (fun x => next_is_reclaim (g_r x)) ex4_sched ex4_init /\
+  let s := exec ex4_sched ex4_init in
+  hsem (g_sh s) = Some 0 /\ length (g_pub s) = 2%nat /\ length (g_got s) = 1%nat /\ held (g_r s) = 1.
+Proof. split; [apply every_prefixb_sound; vm_compute; reflexivity|]. vm_compute. repeat split; reflexivity. Qed.
